@@ -33,15 +33,12 @@ Inductive site :=
 | S_gk_new_user_expiry_overflow      (* block_count + subscription_duration *)
 | S_gk_store_user_unwrap             (* store_user(..).unwrap() *)
 | S_gk_outdated_overflow             (* subscription_expiry + expiry_delta *)
-| S_gk_charge_user_unwrap            (* registered_users.get_mut(&user_id).unwrap() in add_update_appointment *)
 | S_gk_refund_row_unwrap             (* get_appointment_user_and_length(uuid).unwrap() *)
 | S_gk_refund_user_unwrap            (* registered_users.get_mut(&user_id).unwrap() in delete_appointments *)
 | S_gk_refund_overflow               (* available_slots += slots *)
 | S_gk_disconnect_underflow          (* height - 1 *)
 | S_w_store_update_unwrap            (* update_appointment(..).unwrap() *)
-| S_w_store_insert_unwrap            (* store_appointment(..).unwrap() in store_appointment *)
 | S_w_store_triggered_unwrap         (* store_appointment(..).unwrap() in store_triggered_appointment *)
-| S_w_load_appointment_unwrap        (* load_appointment(uuid).unwrap() in handle_breaches *)
 | S_w_cache_update                   (* unwraps inside TxIndex::remove_oldest_block (locator cache) *)
 | S_w_disconnect_underflow
 | S_r_get_height_unwrap              (* tx_index.get_height(block_hash).unwrap() *)
@@ -54,8 +51,7 @@ Inductive site :=
 | S_r_reorg_unreachable              (* unreachable!() on ConfirmedIn from send_transaction *)
 | S_r_stale_underflow                (* height - CONFIRMATIONS_BEFORE_RETRY *)
 | S_r_stale_load_tracker_unwrap
-| S_r_stale_update_unwrap            (* update_tracker_status(status).unwrap() with status = IrrevocablyResolved *)
-| S_api_expired_unwrap.              (* has_subscription_expired(user_id).unwrap() *)
+| S_r_stale_update_unwrap.           (* update_tracker_status(status).unwrap() with status = IrrevocablyResolved *)
 
 (* node answers *)
 Inductive getraw_ans := G_in_mempool | G_confirmed | G_not_found | G_other.
@@ -236,7 +232,7 @@ Definition gk_add_update_user (t : tower) (u : N) : res reg_result :=
 (* add_update_appointment: Some slots = Ok(available), None = NotEnoughSlots *)
 Definition gk_add_update_appointment (t : tower) (u : N) (uuid : N * N) (blen : N) : res (option N) :=
   match gk_get t u with
-  | None => Abort S_gk_charge_user_unwrap t
+  | None => Ok None t                 (* the user is gone (purged since it was authenticated): NotEnoughSlots *)
   | Some ui =>
       let used := match find_app (db_apps t) uuid with Some a => slots_of (b_len (a_blob a)) | None => 0 end in
       let required := slots_of blen in
@@ -468,6 +464,18 @@ Definition authenticate (t : tower) (signer : option N) : option N :=
   | None => None
   end.
 
+(* Watcher::store_appointment: StoredAppointment::{Update, New} = stored, UnknownUser = the INSERT failed on the
+   foreign key (the owner's row is gone) and nothing is stored *)
+Definition w_store_ok (t : tower) (a : app) : bool :=
+  match find_app (db_apps t) (app_uuid a) with
+  | Some _ => true
+  | None => amem (db_users t) (a_user a)
+  end.
+
+(* a user the gatekeeper knows has its row in table users (true in every reachable state of the sequential
+   tower: TowerInv.inv_user_rows); it is what makes the store after a charge succeed *)
+Definition user_row_ok (t : tower) (u : N) : Prop := amem (gk_users t) u = true -> amem (db_users t) u = true.
+
 Definition w_store_appointment (t : tower) (a : app) : res unit :=
   match find_app (db_apps t) (app_uuid a) with
   | Some _ =>
@@ -475,16 +483,18 @@ Definition w_store_appointment (t : tower) (a : app) : res unit :=
       Ok tt (p_update_app t a)
   | None =>
       if amem (db_users t) (a_user a) then Ok tt (p_insert_app t a)
-      else Abort S_w_store_insert_unwrap t
+      else Ok tt t
   end.
 
 Definition w_store_triggered (sc : script) (t : tower) (a : app) (dispute : N) : res unit :=
   match decrypt (a_blob a) dispute with
   | Some penalty =>
-      (* store_appointment: update when the row exists, insert otherwise *)
-      do _, t1 <- w_store_appointment t a;
-      do s, t2 <- r_handle_breach sc t1 (app_uuid a) dispute penalty;
-      if status_rejected s then gk_delete_appointments t2 [app_uuid a] false else Ok tt t2
+      (* store_appointment: update when the row exists, insert otherwise; nothing else happens when it cannot be stored *)
+      if w_store_ok t a then
+        do _, t1 <- w_store_appointment t a;
+        do s, t2 <- r_handle_breach sc t1 (app_uuid a) dispute penalty;
+        if status_rejected s then gk_delete_appointments t2 [app_uuid a] false else Ok tt t2
+      else Ok tt t
   | None =>
       (* invalid: nothing is stored, and the version it replaces (if any) goes too *)
       match find_app (db_apps t) (app_uuid a) with
@@ -499,7 +509,7 @@ Definition w_add_appointment (sc : script) (t : tower) (signer : option N)
   | None => Ok AddAuthOrSlots t
   | Some u =>
       match gk_get t u with
-      | None => Abort S_api_expired_unwrap t
+      | None => Ok AddAuthOrSlots t          (* has_subscription_expired: the user is gone *)
       | Some ui =>
           if N.leb (u_expiry ui) (gk_height t) then Ok (AddExpired (u_expiry ui)) t
           else
@@ -512,11 +522,17 @@ Definition w_add_appointment (sc : script) (t : tower) (signer : option N)
                 match charged with
                 | None => Ok AddAuthOrSlots t1
                 | Some available =>
+                    (* was the appointment stored (or dropped as undecryptable), or is its owner's row gone? *)
+                    let stored := match ti_get (w_cache t1) loc with
+                                  | Some dispute => match decrypt b dispute with Some _ => w_store_ok t1 a | None => true end
+                                  | None => w_store_ok t1 a
+                                  end in
                     do _, t2 <- (match ti_get (w_cache t1) loc with
                                  | Some dispute => w_store_triggered sc t1 a dispute
                                  | None => w_store_appointment t1 a
                                  end);
-                    Ok (AddOk (a_start a) sig available (u_expiry ui)) t2
+                    if stored then Ok (AddOk (a_start a) sig available (u_expiry ui)) t2
+                    else Ok AddAuthOrSlots t2
                 end
             end
       end
@@ -527,7 +543,7 @@ Definition w_get_appointment (t : tower) (signer : option N) (loc : N) : res get
   | None => Ok GetAuth t
   | Some u =>
       match gk_get t u with
-      | None => Abort S_api_expired_unwrap t
+      | None => Ok GetAuth t
       | Some ui =>
           if N.leb (u_expiry ui) (gk_height t) then Ok (GetExpired (u_expiry ui)) t
           else
@@ -545,7 +561,7 @@ Definition w_get_subscription_info (t : tower) (signer : option N) : res sub_res
   | None => Ok SubAuth t
   | Some u =>
       match gk_get t u with
-      | None => Abort S_api_expired_unwrap t
+      | None => Ok SubAuth t
       | Some ui =>
           if N.leb (u_expiry ui) (gk_height t) then Ok (SubExpired (u_expiry ui)) t
           else Ok (SubOk (u_slots ui) (u_expiry ui)
@@ -560,7 +576,7 @@ Fixpoint breach_uuid_loop (sc : script) (dispute : N) (us : list (N * N)) (t : t
   | [] => Ok invalid t
   | uuid :: r =>
       match find_app (db_apps t) uuid with
-      | None => Abort S_w_load_appointment_unwrap t
+      | None => breach_uuid_loop sc dispute r t invalid      (* the row is gone by now: skipped *)
       | Some a =>
           match decrypt (a_blob a) dispute with
           | Some penalty =>
